@@ -34,9 +34,10 @@
 (*                   disjoint, everything is inside the die                *)
 (* TLC decides which of these clauses the transcribed loops guarantee on   *)
 (* every legal configuration of the bounded universe (LegalPost_mc_*.cfg); *)
-(* the ones they do not guarantee are listed in LegalPost_mc_fails.cfg     *)
-(* (must FAIL) with TLC's counterexample, and the harness reports the same *)
-(* clauses on the real methods.                                            *)
+(* the ones they do not guarantee (noOverlap, stillAttached: the trunk     *)
+(* that absorbs a branch also fills the notch beside it) are listed in     *)
+(* LegalPost_mc_fails*.cfg (must FAIL) with TLC's counterexample, and the  *)
+(* harness reports the same clauses on the real methods.                   *)
 (***************************************************************************)
 EXTENDS Legal
 
@@ -91,18 +92,19 @@ In4(r, s) == s[1] <= r[1] /\ s[2] <= r[2] /\ r[3] <= s[3] /\ r[4] <= s[4]
 EnArea(rs, e) == FoldSet(LAMBDA i, acc : acc + TArea(rs[i]), 0, e)
 \* a branch may be turned off only when it is at most the threshold share of the module
 Small(rs, i) == TArea(rs[i]) * OFFD <= OFFN * SumArea4(rs)
-PostClauses(w, n, c, a, e, fused) ==
+PostClauses(w, n, c, a, e) ==
   [ hardKept |-> \A m \in Mods(n) : IsHard(n, m) => a[m] = c[m] /\ e[m] = 1..Len(c[m]),
     trunkKept |-> \A m \in Mods(n) : 1 \in e[m],
     covered |-> \A m \in Mods(n) : \A i \in 1..Len(c[m]) :
                    \/ (i > 1 /\ Small(c[m], i))
                    \/ \E j \in e[m] : In4(c[m][i], a[m][j]),
     \* turn-off removes at most OFFN/OFFD of the module per disabled branch; every fusion adds at most
-    \* FUSN/FUSD of the bounding box it creates (bounded by the area afterwards)
+    \* FUSN/FUSD of the bounding box it creates (bounded by the area afterwards), and a branch is fused at most
+    \* twice (with the trunk, with the next branch of its side): stated on the observed values only
     areaWithin |-> \A m \in Mods(n) :
                      LET A0 == SumArea4(c[m])  A1 == EnArea(a[m], e[m])  k == Len(c[m]) - Cardinality(e[m]) IN
                      /\ A1 * OFFD >= A0 * OFFD - k * OFFN * A0
-                     /\ (A1 - A0) * FUSD <= fused[m] * FUSN * A1,
+                     /\ (A1 - A0) * FUSD <= 2 * k * FUSN * A1,
     stillAttached |-> \A m \in Mods(n) : \A i \in e[m] \ {1} :
                         AttachedTo(a[m][1], a[m][i], Role(n, m, i)) /\ WithinExtent(a[m][1], a[m][i], Role(n, m, i)),
     noOverlap |-> /\ \A m \in Mods(n) : \A i \in e[m] : \A j \in e[m] : i < j => ~TOverlaps(a[m][i], a[m][j])
@@ -110,7 +112,7 @@ PostClauses(w, n, c, a, e, fused) ==
                         \A i \in e[m] : \A j \in e[k] : ~TOverlaps(a[m][i], a[k][j])
                   /\ \A m \in Mods(n) : \A i \in e[m] :
                         0 <= a[m][i][1] /\ 0 <= a[m][i][2] /\ a[m][i][3] <= w.dw /\ a[m][i][4] <= w.dh ]
-PostFalse(w, n, c, a, e, fused) == LET cl == PostClauses(w, n, c, a, e, fused) IN { k \in PostClauseNames : ~cl[k] }
+PostFalse(w, n, c, a, e) == LET cl == PostClauses(w, n, c, a, e) IN { k \in PostClauseNames : ~cl[k] }
 
 (***************************************************************************)
 (* State machine: Legal's construction (and one legal move), then the      *)
@@ -131,8 +133,7 @@ PEmit == /\ EMIT /\ ppc = "none" /\ pc = "build" /\ Len(net) > 0
 PNext == PBuild \/ PostProcess \/ PEmit
 PSpec == PInit /\ [][PNext]_pvars
 
-Fused == [m \in Mods(net) |-> Post(net, cfg)[m].fused]
-Holds(cl) == (ppc = "done") => PostClauses(World, net, cfg, after, en, Fused)[cl]
+Holds(cl) == (ppc = "done") => PostClauses(World, net, cfg, after, en)[cl]
 InvHardKept == Holds("hardKept")
 InvTrunkKept == Holds("trunkKept")
 InvCovered == Holds("covered")
